@@ -124,6 +124,9 @@ func (x *Exec) appendOp(st *State, ins ssa.Value, c *ssa.CallCommon, args []Valu
 	a := st
 	b := st.clone()
 	a.assume(fmt.Sprintf("(<= %s %s)", newLen, s.Cap))
+	if insI, ok := ins.(ssa.Instruction); ok {
+		x.frameCheck(a, insI, key, s.Arr, "", "elements appended in place")
+	}
 	writeElems(a, s.Arr, s.Off)
 	a.env[ins] = Value{K: VSlice, Arr: s.Arr, Off: s.Off, Len: newLen, Cap: s.Cap, Ty: s.Ty}
 	// realloc
@@ -290,6 +293,7 @@ func (x *Exec) mapUpdate(st *State, ins *ssa.MapUpdate) []*State {
 	vv := x.get(st, ins.Value)
 	x.panicObl(st, ins, "nilmap", "(not (= "+mv.T+" 0))", "assignment to entry in nil map")
 	dom, mk, ksort, vt := x.mapHeaps(st, mv)
+	x.frameCheck(st, ins, mk, mv.T, "", "map "+mk)
 	in := fmt.Sprintf("(select (select %s %s) %s)", dom, mv.T, kv.T)
 	lh := st.heapTermIn(st.heap, mk+"#len", 1, "Int")
 	st.heapSet(mk+"#len", fmt.Sprintf("(store %s %s (+ (select %s %s) (ite %s 0 1)))", lh, mv.T, lh, mv.T, in))
@@ -445,4 +449,7 @@ func (x *Exec) selectStmt(st *State, ins *ssa.Select) []*State {
 	return []*State{st}
 }
 
-func (x *Exec) frozenCheck(st *State, ins ssa.Instruction, dst Value, lo, hi string) {}
+func (x *Exec) frozenCheck(st *State, ins ssa.Instruction, dst Value, lo, hi string) {
+	key, _ := elemKeyOf(dst.Ty)
+	x.frameCheck(st, ins, key, dst.Arr, "", "elements of the copy destination")
+}
